@@ -10,7 +10,7 @@ LEVEL = 'exploration'
 BUDGET = {'quick': 90, 'thorough': 900}
 RULE = ('Cases = persistent worker kind x default args (list or tuple, length 0-3) x default kwargs x history of <= 10 operations '
         'from {enqueue(fewer / as many / more positionals, overriding kwargs), next_result, results_iter(maxitems), call, close, '
-        'wait, enqueue after close / death} x caller stalled at a line of the API call x target (echo, argument-mutating echo, None-returning) x schedule; every observed '
+        'wait, enqueue after close / death (also: death on its own by a failing input, not yet observed by the parent)} x caller stalled at a line of the API call x target (echo, argument-mutating echo, None-returning) x schedule; every observed '
         'value is compared with a list model computed on pristine copies of the defaults.')
 ASSUMPTIONS = ['no crash faults (a slow caller, stalled at a line boundary inside an API call, is part of the schedule space); buffer sizes are drawn but outstanding data always fits (the documented full-queue deadlock is excluded)']
 
@@ -35,6 +35,8 @@ def gen_case(ctx, rng, i, tag='random'):
             ops.append(['enqueue', [copy.deepcopy(rng.choice(ATOMS)) for _ in range(na)],
                         {k: copy.deepcopy(rng.choice(ATOMS)) for k in rng.sample(['p', 'q', 's'], rng.randrange(0, 3))}])
             nenq += 1
+        elif r < 0.49 and not any(o[0] in ('close', 'die') for o in ops) and rng.random() < 0.5:
+            ops.append(['die'])        # an input on which the target raises: the worker dies on its own
         elif r < 0.6:
             ops.append(['next'])
         elif r < 0.7:
@@ -111,11 +113,30 @@ class Run:
         delivered = 0
         closed = False
         dead = False
+        died = False       # the target raised on a '$die' input: the worker ends by itself, after the inputs queued before
         ended = False
         for op in c['ops']:
             name = op[0]
             self.trace.append([name] + ([len(op[1])] if name in ('enqueue', 'call') else op[1:]))
+            if name == 'die':
+                if closed or dead or died:
+                    continue
+                r = self.call(w.enqueue, die='$die')
+                if r[0] != 'ok':
+                    self.viol('enqueue-accepted', f'enqueue-{r[0]}:{type(r[1]).__name__}')
+                    return
+                died = True
+                # let the death complete without observing it through is_alive() / wait() / terminate()
+                s.sleep(2.0)
+                continue
             if name == 'enqueue':
+                if died and not dead:
+                    # the worker has died on its own (a while ago): the input must be refused, not silently dropped
+                    r = self.call(w.enqueue, *copy.deepcopy(op[1]), **copy.deepcopy(op[2]))
+                    if not (r[0] == 'exc' and isinstance(r[1], WorkerClosedError)):
+                        self.viol('closed-rejects-enqueue', f'enqueue-after-own-death:{r[0]}:{type(r[1]).__name__ if r[0] == "exc" else lib.safe_repr(r[1])}')
+                        return
+                    continue
                 r = self.call(w.enqueue, *copy.deepcopy(op[1]), **copy.deepcopy(op[2]))
                 if closed or dead:
                     if not (r[0] == 'exc' and isinstance(r[1], WorkerClosedError)):
@@ -146,7 +167,7 @@ class Run:
                         self.viol('results-delivered', 'results_iter-short')
                         return
             elif name == 'call':
-                if delivered == len(expected) and not closed and not dead:
+                if delivered == len(expected) and not closed and not dead and not died:
                     r = self.call(w.call, *copy.deepcopy(op[1]), **copy.deepcopy(op[2]))
                     expected.append(model_value(c, op[1], op[2]))
                     if not self.check_value(r, expected, delivered, 'call'):
@@ -188,7 +209,11 @@ class Run:
                             return
                     r4 = lib.read4(w)
                     ro = r4.pop('_result_obj', None)
-                    if r4.get('has_error') is not False or ro != len(expected):
+                    if died:
+                        if r4.get('has_error') is not True or (r4.get('error') or {}).get('type') != 'MyError':
+                            self.viol('result-counts', f'final-result-after-own-death:has_error={r4.get("has_error")}:error={(r4.get("error") or {}).get("type")}', r4)
+                            return
+                    elif r4.get('has_error') is not False or ro != len(expected):
                         self.viol('result-counts', f'final-result:has_error={r4.get("has_error")}:result-eq-count={ro == len(expected)}', r4)
                         return
         s.probe('history-completed')
